@@ -201,7 +201,9 @@ class Gen:
         parts = []
         for _ in range(self.rng.choice([0, 1, 2, 2, 3])):
             if self.rng.random() < 0.2:
-                parts.append("*" + self.as_iter(self.expr(d)))
+                # items spliced into a set must not be raw constants of mixed numeric types (2 == 2.0 == True would merge
+                # natively, the model compares constants structurally): recording-valued iterables only
+                parts.append("*" + (self.as_r(self.expr(d)) if raw_keys else self.as_iter(self.expr(d))))
             else:
                 parts.append(self.hashable_elt(d) if raw_keys else self.expr(d)[0])
         return parts
